@@ -386,3 +386,10 @@ def _dispatch_tables(ctx, rep) -> None:
         bad = unknown_subclasses_rejected(repo, fi.module, chain, repo.concrete_subclasses(base))
         rep.ob("C17.4", f"{meth}/unknown-subclasses-rejected", not bad, fi.loc(), "a config object of an unknown (user-defined) subclass must reach `raise NotImplementedError`; with isinstance-style arms it is silently treated as its base" + (f": {bad[:3]}" if bad else ""), sample=True)
         rep.floor("C17.4", meth, n, 2)
+    from .c01 import inverse_root_selection
+    from .common import no_shared_mutable_defaults
+
+    rep.rule("C17.5", "every non-negative inverse-root override constructs: the per-order selection (0 -> default rule, n -> n, sequence -> entry of that order, default rule beyond its length) never indexes past the sequence")
+    rep.attempt("inverse_root_selection", inverse_root_selection, ctx, rep, "C17.5")
+    rep.rule("C17.6", "validation sees only this construction's values: no config default, class attribute or function default is one mutable container shared between instances / calls")
+    rep.attempt("no_shared_mutable_defaults", no_shared_mutable_defaults, ctx, rep, "C17.6")
